@@ -11,6 +11,8 @@ package bexpr
 //go:generate goimports -w grammar/grammar.go
 
 import (
+	"regexp"
+
 	"github.com/hashicorp/go-bexpr/grammar"
 	"github.com/mitchellh/pointerstructure"
 )
@@ -46,6 +48,8 @@ func CreateEvaluator(expression string, opts ...Option) (*Evaluator, error) {
 		return nil, err
 	}
 
+	compileRegexps(ast.(grammar.Expression))
+
 	eval := &Evaluator{
 		ast:                     ast.(grammar.Expression),
 		tagName:                 parsedOpts.withTagName,
@@ -55,6 +59,30 @@ func CreateEvaluator(expression string, opts ...Option) (*Evaluator, error) {
 	}
 
 	return eval, nil
+}
+
+// compileRegexps compiles the regular expressions of all matches operators
+// once, before the evaluator is handed out: the syntax tree is shared by all
+// Evaluate calls, which may run concurrently, so it must not be written to
+// during evaluation. An invalid regular expression is left for Evaluate to
+// report.
+func compileRegexps(ast grammar.Expression) {
+	switch node := ast.(type) {
+	case *grammar.UnaryExpression:
+		compileRegexps(node.Operand)
+	case *grammar.BinaryExpression:
+		compileRegexps(node.Left)
+		compileRegexps(node.Right)
+	case *grammar.CollectionExpression:
+		compileRegexps(node.Inner)
+	case *grammar.MatchExpression:
+		if node.Operator != grammar.MatchMatches && node.Operator != grammar.MatchNotMatches {
+			return
+		}
+		if re, err := regexp.Compile(node.Value.Raw); err == nil {
+			node.Value.Converted = re
+		}
+	}
 }
 
 // Evaluate attempts to match the configured expression against the supplied datum.
